@@ -73,11 +73,12 @@ Theorem C08_compact_expanded : forall c t sub, c_kind c = KArr -> zassoc 1 (c_su
     v_unit v = v_unit t /\ v_descr v = v_descr t.
 Proof. exact compact_expanded. Qed.
 
-(* lookup_consistent: in a dictionary whose objects have distinct indices and distinct dot-free names, look-up by
-   index and by name reach the same object (same identity p), and for a container with distinct member
-   sub-indices and names, [sub], [name] and 'Parent.Child' reach the same member *)
+(* lookup_consistent: in a dictionary whose objects have distinct indices and distinct names (dots allowed, e.g.
+   'Max. current'), look-up by index and by name reach the same object (same identity p), and for a container with
+   distinct member sub-indices and names, [sub] and [name] reach the same member; 'Parent.Child' does too when the
+   top-level names are dot-free (the code splits a qualified name at its FIRST dot) *)
 Theorem C08_lookup_consistent : forall base objs, blank base ->
-  NoDup (map obj_index objs) -> NoDup (map obj_name objs) -> Forall (fun o => no_dot (obj_name o)) objs ->
+  NoDup (map obj_index objs) -> NoDup (map obj_name objs) ->
   forall p o, nth_error objs p = Some o ->
   od_get_int (built objs base) (obj_index o) = Ok (p, o) /\
   od_get (built objs base) (KI (obj_index o)) = Ok (LObj p o) /\
@@ -85,7 +86,8 @@ Theorem C08_lookup_consistent : forall base objs, blank base ->
   (forall c0 vars v, o = OCont (filled c0 vars) -> c_subs c0 = [] -> c_names c0 = [] ->
      NoDup (map v_sub vars) -> NoDup (map v_name vars) -> In v vars ->
      obj_get o (KI (v_sub v)) = Ok v /\ obj_get o (KS (v_name v)) = Ok v /\
-     od_get (built objs base) (KS (obj_name o ++ 46 :: v_name v)) = Ok (LVar p v)).
+     (Forall (fun o => no_dot (obj_name o)) objs ->
+      od_get (built objs base) (KS (obj_name o ++ 46 :: v_name v)) = Ok (LVar p v))).
 Proof. exact lookup_consistent. Qed.
 
 (* ---- non-vacuity: a concrete non-trivial description meets the hypotheses ---- *)
